@@ -11,6 +11,7 @@ import itertools
 from hypothesis import strategies as st
 
 from pbt.core import HarnessError, Outcome
+from pbt.props import _decoys
 
 TECHNIQUE = "boundary-first generated fingerprints and inspection histories against an independent bounds check and a two-signal reference rule; exhaustive tolerance-rule table; system-level observation histories"
 LEVEL_TEXT = ("Exploration: T-cell inspection histories with fingerprints placed on, just inside and just outside every bound are checked against an independent recomputation of "
@@ -31,6 +32,7 @@ ASSUMPTIONS = [
 ]
 MIN_NONTRIVIAL_FRACTION = 0.3
 RULE += " Added after the seeded rounds: " + 'System histories install suppression rules and tolerance records with tolerated-violation patterns; the one-step rule at system level is judged against the action the watcher itself recommended for that inspection.'
+RULE += ' Round 7: a `decoy` (pbt/props/_decoys.py): a second object of the class, differently configured and put through a misleading script (same prompts / names / ids, opposite verdicts and limits), is built in the same process after the object under test.'
 EXHAUSTIVE_NOTE = {"quick": "T-cell single-inspection table: 5x5x5 positions x 3 error x 2x2 hashes x 6 canary x flag = 18000 is sampled on the sub-lattice 3x3x3x2x2x2x6x2 = 2592 (complete for it); Treg table: 4 responses x 3 stability settings x rule lists of length <= 2 over 2x4 rule kinds = 876, complete",
                    "thorough": "T-cell single-inspection table 5x5x5x3x2x2x6x2 = 36000, complete; Treg table 876, complete"}
 
@@ -72,7 +74,7 @@ def strategy(tier):
     _prefix = st.tuples(st.lists(st.sampled_from(WORDS), min_size=1, max_size=2, unique=True), st.integers(1, 3), st.sampled_from([0.5, 1.0]),
                         st.sampled_from([0.2, 0.9])).map(lambda t: [["obs", t[0], t[1], t[2], t[3], None, 4], ["train"]])
     system = st.tuples(_prefix, st.lists(_sstep, min_size=3, max_size=16)).map(lambda t: {"kind": "system", "hist": t[0] + t[1]})
-    return st.integers(0, 9).flatmap(lambda k: tcell if k < 4 else (treg if k == 4 else system))
+    return _decoys.with_decoy(st.integers(0, 9).flatmap(lambda k: tcell if k < 4 else (treg if k == 4 else system)))
 
 
 def enumerate_cases(tier):
@@ -270,6 +272,27 @@ def _system(case, out):
     from operon_ai.surveillance.thymus import SelectionResult
     sysm = ImmuneSystem(min_training_samples=3, min_observations=3, window_size=8)
     sysm.register_agent("a")
+    if case.get("decoy"):
+        # another system watching an agent of the same id through the same history, but with a failed canary and a manual flag before every
+        # inspection: it confirms and remembers threats whose fingerprints the system under test will see without any second signal
+        def follow(other, agent_id):
+            other.register_agent(agent_id)
+            for step_ in case["hist"]:
+                try:
+                    if step_[0] == "obs":
+                        for _ in range(step_[6]):
+                            other.record_observation(agent_id, " ".join(step_[1] * step_[2]), step_[3], step_[4], step_[5])
+                    elif step_[0] == "train":
+                        other.train_agent(agent_id)
+                    elif step_[0] == "inspect":
+                        other.record_canary_result(agent_id, False)
+                        other.flag_agent(agent_id, "decoy")
+                        other.inspect(agent_id)
+                except Exception:  # noqa: BLE001
+                    pass
+
+        _decoys.immune_system(case["decoy"], ImmuneSystem, "a", follow)
+        out.label("decoy")
     trained = False
     flag = False
     streak = 0
